@@ -189,6 +189,9 @@ def _gen_arg(rng, wrapper, pname, t, k):
     if t == "Vec3 α":
         if pname in ("u", "n", "N"):
             v = _rand_unit(rng)
+            if rng.chance(0.25):   # exact coordinate axes (degenerate helper cross products in frame(N))
+                v = [0.0, 0.0, 0.0]
+                v[rng.randrange(3)] = rng.pick([1.0, -1.0])
             return v if (pname != "u" or rng.chance(0.5)) else [x * rng.pick([0.5, 2.0, 3.0]) for x in v]
         if pname == "up":
             return rng.pick([[0, 1, 0], [0, 0, 1], _rand_unit(rng)])
@@ -224,8 +227,8 @@ def gen_cases(rng, tier, h):
                 vals = [trprop.r32(x) for x in flat(qmat(q))]
             elif nm == "q_slerp":
                 a, b = _rand_quat(rng), _rand_quat(rng)
-                if i % 3 == 0:   # nearly equal -> linear fallback branch
-                    b = unit([x + 0.001 * rng.uniform(-1, 1) for x in a])
+                if i % 3 == 0:   # nearly equal -> linear fallback branch (angles up to the 0.9995 threshold, ~1.8 degrees)
+                    b = unit([x + rng.pick([0.001, 0.01, 0.02, 0.03]) * rng.uniform(-1, 1) for x in a])
                 if i % 7 == 1:   # (nearly) antipodal: the same rotation, "long way around" must be avoided
                     b = [-x for x in a] if i % 2 else unit([-x + 0.001 * rng.uniform(-1, 1) for x in a])
                 if i % 11 == 2:
@@ -482,6 +485,16 @@ def reference(nm, a, res):
                 exp = [fa * x + fb * y for x, y in zip(qa, qb)]
                 if not _close(q, exp, 2e-3 / max(math.sin(th), 0.03)):
                     return "slerp must interpolate along the short arc: expected %s" % exp
+            elif d < 0.99999999:
+                # near-parallel operands (linear fallback in the code): the exact slerp differs from the normalised
+                # linear interpolation by O(theta^3) <= 3e-5 for theta <= 0.032, so a mix-up of the operands or of
+                # the factor (which moves the result by up to theta) is visible
+                th = math.acos(max(-1, min(1, d)))
+                fb = math.sin(th * f) / math.sin(th)
+                fa = math.cos(th * f) - d * fb
+                exp = [fa * x + fb * y for x, y in zip(qa, qb)]
+                if not _close(q, exp, 1e-4):
+                    return "slerp of nearly parallel quaternions must still go from a (factor 0) to b (factor 1): expected %s" % exp
         elif op == "conj":
             if _q(res) != qconj(_q(a)):
                 return "conj must negate i,j,k"
